@@ -30,7 +30,8 @@ pub fn evals(prop: &str) -> Vec<(&'static str, &'static str)> {
         ("corr_upcasts", "corr_upcasts"),
     ];
     match prop {
-        "C01" => v.extend([("prop_faithful", "prop_faithful"), ("hyp_coincidence_free", "hyp_coincidence_free")]),
+        "C01" => v.extend([("prop_faithful", "prop_faithful"), ("prop_faithful_all", "prop_faithful_all"),
+                           ("known_F3_conflation", "known_F3_conflation"), ("hyp_coincidence_free", "hyp_coincidence_free")]),
         "C02" => v.extend([("prop_syn_parses", "prop_syn_parses"), ("prop_closed", "prop_closed")]),
         "C07" => v.extend([("prop_subst", "prop_subst"), ("prop_faithful", "prop_faithful"), ("hyp_has_subst", "hyp_has_subst"), ("known_F5", "known_F5")]),
         "C08" => v.extend([("prop_derives_exact", "prop_derives_exact"), ("hyp_has_recursive", "hyp_has_recursive")]),
@@ -111,6 +112,40 @@ pub fn outside_idents_and_prelude() -> Vec<serde_json::Value> {
                                 {"id": 1, "type": {"path": [], "params": [], "def": {"primitive": p}, "docs": []}}]}));
     }
     v
+}
+
+/// `struct X<T: Config> { inner: T::Inner }`: the parameter is not used in the fields, so the
+/// instantiations X<A1>, X<A2> (Inner = u8) and X<B> (Inner = u32) are three entries with one path, two
+/// of them with the same shape; in every order of the three (and with a fourth, equal, member)
+pub fn three_member_families() -> Vec<serde_json::Value> {
+    use serde_json::json;
+    let prim = |id: u32, p: &str| json!({"id": id, "type": {"path": [], "params": [], "def": {"primitive": p}, "docs": []}});
+    let unit = |id: u32, n: &str| json!({"id": id, "type": {"path": ["cfg", n], "params": [], "def": {"composite": {"fields": []}}, "docs": []}});
+    let x = |id: u32, arg: u32, inner: u32, tn: &str| json!({"id": id, "type": {"path": ["m", "X"],
+        "params": [{"name": "T", "type": arg}], "docs": [],
+        "def": {"composite": {"fields": [{"name": "inner", "type": inner, "typeName": tn, "docs": []}]}}}});
+    let mut out = vec![];
+    // members: (argument id, inner id)
+    let members = [(2u32, 0u32), (3, 0), (4, 1), (5, 0)];
+    let orders: Vec<Vec<usize>> = vec![
+        vec![0, 1, 2], vec![0, 2, 1], vec![2, 0, 1], vec![1, 0, 2], vec![0, 1, 3, 2], vec![0, 1, 3], vec![2, 0, 1, 3],
+    ];
+    for ord in orders {
+        let mut types = vec![prim(0, "u8"), prim(1, "u32"), unit(2, "A1"), unit(3, "A2"), unit(4, "B"), unit(5, "A3")];
+        let mut ids = vec![];
+        for m in &ord {
+            let id = types.len() as u32;
+            let (arg, inner) = members[*m];
+            types.push(x(id, arg, inner, "T::Inner"));
+            ids.push(id);
+        }
+        let uid = types.len() as u32;
+        let fields: Vec<serde_json::Value> = ids.iter().enumerate()
+            .map(|(k, i)| json!({"name": format!("f{k}"), "type": i, "typeName": "X<_>", "docs": []})).collect();
+        types.push(json!({"id": uid, "type": {"path": ["m", "User"], "params": [], "docs": [], "def": {"composite": {"fields": fields}}}}));
+        out.push(json!({"types": types}));
+    }
+    out
 }
 
 pub fn outside_compact_field() -> Vec<serde_json::Value> {
@@ -464,6 +499,19 @@ pub fn cases(prop: &str, tier: &str, ctx: &mut Ctx, rng: &mut Rng) {
                         }
                         ctx.push_reg(&format!("corpus-roots:{n}"), reg, Some(rj), &s);
                     }
+                }
+            }
+            if prop == "C01" {
+                // same-path families (C01 also speaks about them: generation must fail or be faithful)
+                for rj in three_member_families() {
+                    let reg = reggen::to_registry(&rj);
+                    ctx.push_reg("family:three-members", &reg, Some(&rj), &base_spec(&reg));
+                }
+                for _ in 0..(80 * scale) {
+                    let p = crate::famgen::family_program(rng);
+                    let (rj, _) = reggen::build(&p);
+                    let reg = reggen::to_registry(&rj);
+                    ctx.push_reg("family", &reg, Some(&rj), &base_spec(&reg));
                 }
             }
             random_cases(ctx, rng, 300 * scale, &GenCfg::default(), &full);
